@@ -343,6 +343,17 @@ Theorem C06_builder_resumed_flag_redundant : forall c sz gp maxgp x ik,
 Proof. exact should_stop_idempotent. Qed.
 Print Assumptions C06_builder_resumed_flag_redundant.
 
+(* Likewise the restored hasLastUkey / lastUkey / lastSeq: the entry at which a resumed run starts is a first occurrence
+   whatever they are (the snapshot is taken at a first-occurrence boundary and the writer is gone), so a run resumed with
+   hasLastUkey = false performs the same iteration.  (Both facts explain why the two corresponding source changes are
+   equivalent mutants.) *)
+Theorem C06_builder_restored_last_key_redundant : forall c p sz gp maxgp deeper minSeq tableSize tsize o i e m u q,
+  tw m = None -> first_occ c m (e_uk e) = true ->
+  step_good c p sz gp maxgp deeper minSeq tableSize tsize o true i e (set_last m false u q) =
+  step_good c p sz gp maxgp deeper minSeq tableSize tsize o true i e m.
+Proof. exact resume_last_irrelevant. Qed.
+Print Assumptions C06_builder_restored_last_key_redundant.
+
 (* Non-vacuity: seven entries (user keys 1..5, minSeq 8: the tombstone 2@8 and the older 2@3 are dropped), tables are
    full after two entries; six failing attempts — flush error at entry 2; append error at entry 4 after the snapshot at 2;
    iterator error at position 1 while skipping; flush error at entry 6; error of the final flush; table creation error
